@@ -34,6 +34,33 @@ LEVEL_TEXT = {
     },
 }
 
+LEVEL_TEXT["C15"] = {
+    "text": "Theorems over all tables and offsets: get_raw succeeds iff a NUL lies at or after off inside the table and then returns "
+            "exactly the window [off, first NUL) of the table (same buffer, absolute position); otherwise BadOffset (empty table or "
+            "off > len) / StringTableMissingNul (incl. off = len); get = get_raw filtered by the Unicode Table 3-7 validator. Tied to "
+            "string_table.rs by differential runs (exhaustive tables over a 4-symbol alphabet, random tables) and the UTF-8 validator "
+            "is compared with core::str::from_utf8.",
+    "note": COMMON_NOTE + " core::str::from_utf8 is modelled by validUtf8 (validated differentially, incl. all 1-2 byte sequences in thorough).",
+    "technique": "Lean 4 proof over executable model + differential correspondence + naive-scan oracle",
+}
+LEVEL_TEXT["C10"] = {
+    "text": "Theorem parse_ident_spec: for every buffer and every spec, parse_ident equals the ABI specification function (length, magic, "
+            "version, class, data checked in that order, each defect reported with the bytes found); corollaries for each single defect; "
+            "from_ei_data truth tables for all byte values; any-endian opens a file to the *same ElfBytes value* as the matching fixed spec "
+            "(hence identical results of every accessor). Tied to file.rs/endian.rs by differential runs with all four Rust "
+            "instantiations over all 256 values of EI_CLASS/EI_DATA/EI_VERSION and magic corruptions.",
+    "note": COMMON_NOTE + " NativeEndian is modelled as LittleEndian (the build target); the harness checks cfg!(target_endian).",
+    "technique": "Lean 4 proof (spec refinement) + exhaustive differential over ident bytes",
+}
+LEVEL_TEXT["C09"] = {
+    "text": "Generic theorems over every table whose entry kind is Regular (proved by decide for the 9 generated entry programs used in "
+            "tables/iterators, both classes): get(i) ok iff i < len (incl. i*size overflowing usize); next at cursor k*size yields get k "
+            "and advances by size; collect = [get 0..get (len-1)] with exactly len items; is_empty iff len = 0; a finished iterator stays "
+            "finished even though a failed parse moves the cursor. Entry programs are regenerated from the ParseAt bodies each run.",
+    "note": COMMON_NOTE + " ParsingTable/ParsingIterator control flow is hand-modelled (validated differentially on lengths 0..k*size+size-1, indices near usize::MAX).",
+    "technique": "Lean 4 proof over translator-generated entry programs + differential correspondence + chunk-decode oracle",
+}
+
 # every property not yet claimed is listed here with the reason; entries disappear as checks land
 NOT_APPLICABLE = [
     {"property_id": p, "reason": "not claimed yet in this commit: model exists, theorems/correspondence for this property are still being built (nothing about the technique prevents it)"}
@@ -41,3 +68,4 @@ NOT_APPLICABLE = [
               "C17", "C18", "C19", "C20"] if p not in LEVEL_TEXT
 ]
 PROPS = {k: v for k, v in PROPS.items() if k in LEVEL_TEXT}
+NOT_APPLICABLE = [x for x in NOT_APPLICABLE if x["property_id"] not in LEVEL_TEXT]
